@@ -305,12 +305,26 @@ def run(ctx):
             apat = api.Pattern(lines=2, tracks=2)
             pa.attach_pattern(apat)
             sb, bb, pj0 = digest(pb, spec)
-            for req in (lambda: pb.attach_pattern(apat), lambda: pb.attach_module(real[-1]) if real and real[-1].index else None,
-                        lambda: pb.connect(real[-1], pb.output) if real and real[-1].index else None, lambda: pb.__iadd__(apat)):
+            reqs = [lambda: pb.attach_pattern(apat), lambda: pb.attach_module(real[-1]) if real and real[-1].index else None,
+                    lambda: pb.connect(real[-1], pb.output) if real and real[-1].index else None, lambda: pb.__iadd__(apat)]
+            # disconnect requests that mix the two projects, for every pair that is linked under the same numbers in both
+            for d in [m for m in pa.modules if m is not None]:
+                for si in [x for x in d.in_links if x >= 0]:
+                    s = pa.modules[si]
+                    if s is None or d.index >= len(pb.modules) or si >= len(pb.modules) or pb.modules[d.index] is None or pb.modules[si] is None:
+                        continue
+                    bd, bs = pb.modules[d.index], pb.modules[si]
+                    reqs += [lambda s=s, bd=bd: pa.connect(~s, bd), lambda s=s, bd=bd: pb.connect(~s, bd), lambda s=s, bd=bd: s >> ~bd,
+                             lambda bs=bs, d=d: d << ~bs, lambda s=s, bd=bd: pa.connect([~s], [bd])]
+            sa0 = digest(pa, spec)
+            for req in reqs[:40]:
                 try:
                     req()
-                except (ModuleOwnershipError, PatternOwnershipError):
+                except Exception:
                     pass
+            sa1 = digest(pa, spec)
+            events.append({"op": "mutate", "kind": "refused-cross-project-requests:requesting-side", "provenance": "project %s" % how,
+                           "state_before": sa0[0], "state_after": sa1[0], "bytes_before": sa0[1], "bytes_after": sa1[1], "diff": first_diff(sa0[2], sa1[2])})
             apat.data[0][0].vel = 77
             apat.set_via_fn(lambda p_, l_, t_: api.Note(module=2))
             sa, ba, pj1 = digest(pb, spec)
